@@ -48,7 +48,10 @@ type trial struct {
 	mode    int  // responder calls ack: 1 = once, 2 = twice, 3 = twice from two goroutines
 	big     bool // reply carries bigPad
 	dir     string
-	res     *result
+	// volatile: the emission also carries the volatile flag (dropped instead of buffered while there is no
+	// connection); its ack function is an ack function all the same
+	volatile bool
+	res      *result
 }
 
 const never = -1
@@ -131,6 +134,14 @@ func sameBin(a, b sio.Binary) bool {
 }
 
 // issue emits one ack-carrying event according to the trial.
+func timed(s emitterSock, t *trial) sio.Emitter {
+	em := s.Timeout(t.timeout)
+	if t.volatile {
+		em = em.Volatile()
+	}
+	return em
+}
+
 func issue(s emitterSock, t *trial) {
 	r := t.res
 	r.emitted = time.Now()
@@ -139,7 +150,7 @@ func issue(s emitterSock, t *trial) {
 		delayUs = -1
 	}
 	if t.big {
-		s.Timeout(t.timeout).Emit("qL", t.uid, delayUs, t.mode, func(err error, tok int, pad string) {
+		timed(s, t).Emit("qL", t.uid, delayUs, t.mode, func(err error, tok int, pad string) {
 			r.mu.Lock()
 			r.err, r.tok, r.at = err, tok, time.Now()
 			r.binOK = err != nil || pad == bigPad
@@ -150,7 +161,7 @@ func issue(s emitterSock, t *trial) {
 	}
 	if t.natt == 0 {
 		if t.timeout > 0 {
-			s.Timeout(t.timeout).Emit("q0", t.uid, delayUs, t.mode, func(err error, tok int) {
+			timed(s, t).Emit("q0", t.uid, delayUs, t.mode, func(err error, tok int) {
 				r.mu.Lock()
 				r.err, r.tok, r.at, r.binOK = err, tok, time.Now(), true
 				r.mu.Unlock()
@@ -168,7 +179,7 @@ func issue(s emitterSock, t *trial) {
 	}
 	b1, b2 := bin(t.uid, 1, 10+t.uid%50), bin(t.uid, 2, 1+t.uid%7)
 	if t.timeout > 0 {
-		s.Timeout(t.timeout).Emit("qb", t.uid, delayUs, t.mode, b1, b2, func(err error, tok int, x, y sio.Binary) {
+		timed(s, t).Emit("qb", t.uid, delayUs, t.mode, b1, b2, func(err error, tok int, x, y sio.Binary) {
 			r.mu.Lock()
 			r.err, r.tok, r.at = err, tok, time.Now()
 			r.binOK = err != nil || (sameBin(x, bin(t.uid, 2, 1+t.uid%7)) && sameBin(y, bin(t.uid, 1, 10+t.uid%50)))
@@ -518,6 +529,12 @@ func runOffline(run *vk.Run, natt int, transports []string) {
 		ts = append(ts, t)
 		issue(sock, t)
 	}
+	// the same with the volatile flag: nothing is buffered, the timer still answers the caller
+	for i := 0; i < 2; i++ {
+		t := &trial{uid: nextUID(), delay: 0, timeout: T, natt: natt, mode: 1, dir: "c2s", volatile: true, res: &result{}}
+		ts = append(ts, t)
+		issue(sock, t)
+	}
 	keepUID := nextUID()
 	sock.Emit("q0", keepUID, 0, 1, func(int) {}) // buffered without timeout: must still be delivered after connect
 	vk.WaitUntil(T+10*time.Second, func() bool {
@@ -649,6 +666,34 @@ func runMidFlight(run *vk.Run, n int) {
 		run.Eval(1)
 		judge(run, t, "midflight")
 	}
+	// emitted after the disconnection (no reconnection configured), timed, half of them volatile: the packet goes
+	// nowhere, the caller is answered by the timer - once
+	var disc atomic.Bool
+	sock.OnDisconnect(func(sio.Reason) { disc.Store(true) })
+	if !vk.WaitUntil(20*time.Second, func() bool { return disc.Load() || !sock.Connected() }) {
+		run.Inconclusive("mid-flight: the client did not notice the cut within 20 s")
+		return
+	}
+	var after []*trial
+	for i := 0; i < 6; i++ {
+		t := &trial{uid: nextUID(), delay: never, timeout: 100 * time.Millisecond, natt: 2 * (i % 2), mode: 1, dir: "c2s", volatile: i%3 != 0, res: &result{}}
+		after = append(after, t)
+		issue(sock, t)
+	}
+	vk.WaitUntil(11*time.Second, func() bool {
+		for _, t := range after {
+			if t.res.calls.Load() == 0 {
+				return false
+			}
+		}
+		return true
+	})
+	time.Sleep(50 * time.Millisecond)
+	for _, t := range after {
+		run.Eval(1)
+		judge(run, t, "after-disconnect")
+	}
+	run.Distinct("after-disconnect/volatile+timed")
 }
 
 // mid-flight disconnect WITH reconnection: acknowledgements of the old connection are still outstanding (their
